@@ -82,11 +82,12 @@ PROPS = {
           quick=(8, 12), thorough=(16, 250), timeout=(600, 3000)),
  "C10": P("TestC10", "fault_enumeration",
           "rapid generates short 2.0 chains crossing the developer-reward and 2.0.2 activations (both burn-address zeroing calls with their extra dblock fetch), the mint and mint-burn heights and a "
-          "snapshot + developer payout height, with SPR sets, transfers, conversions and batches. A recording run lists every upstream request of the sync goroutine and its fetch workers "
+          "snapshot + developer payout height, with SPR sets, transfers, conversions and batches; a quarter of the chains are PEG-bank-era chains (per-height payouts, bank table, refunds) and one in eight is a "
+          "timeline chain through every era (legacy graders, FCT burns). A recording run lists every upstream request of the sync goroutine and its fetch workers "
           "(dblock, eblock, each entry, heights excluded) and every SQL call (begin/exec/query/prepared exec+query/commit, on the block's sql.Tx and on the pool). Each enumerated site is then "
           "failed once (upstream: transport error / HTTP 500 / JSON-RPC error / truncated body by ordinal; SQL: generic error or SQLITE_BUSY), the daemon is restarted if it exits, and it must "
           "reach the tip with a ledger dump equal to the fault-free run. quick: 60 sites per chain, stratified by upstream request kind and by SQL operation + statement text (so every distinct statement "
-          "of the block pipeline gets a fault, in a drawn order); thorough: ALL sites of each chain (counter chains_enumerated_exhaustively) plus 40 random pairs. "
+          "of the block pipeline gets a fault, in a drawn order); thorough: ALL sites of each chain up to 2,500 (counter chains_enumerated_exhaustively; longer legacy chains by the same stratified sample) plus 40 random pairs. "
           "Non-trivial = every fired site (all belong to blocks with ledger effects or to the retry path); distinct by (chain, layer, ordinal, statement).",
           quick=(8, 1), thorough=(16, 1), timeout=(900, 3300), shrinktime="20s"),
  "C02": P("TestC02", "fault_enumeration",
